@@ -135,17 +135,14 @@ Fixpoint normalize (n : nat) (dflt : option (list nat)) (all_ok : bool) (tags : 
   | SAll => if all_ok then Some (seq 0 n) else None
   | SPred p => Some (filter p (seq 0 n))
   | STag k => tags k
-  | SColl l =>
-      match l with
-      | [] => None          (* np.concatenate of nothing raises *)
-      | _ => option_map (uniq Nat.compare)
-               ((fix go (l : list sel) : option (list nat) :=
-                   match l with
-                   | [] => Some []
-                   | x :: r => match normalize n dflt all_ok tags x, go r with
-                               | Some a, Some b => Some (a ++ b)
-                               | _, _ => None
-                               end
-                   end) l)
-      end
+  | SColl l =>                   (* np.unique(np.concatenate(...)); the empty collection denotes the empty set *)
+      option_map (uniq Nat.compare)
+        ((fix go (l : list sel) : option (list nat) :=
+            match l with
+            | [] => Some []
+            | x :: r => match normalize n dflt all_ok tags x, go r with
+                        | Some a, Some b => Some (a ++ b)
+                        | _, _ => None
+                        end
+            end) l)
   end.
